@@ -68,6 +68,9 @@ func init() {
 			}
 			hw := hangInfo.Load()
 			fmt.Printf("VERIF-HANG: no progress for %v of real time\n", hangAfter)
+			stk := make([]byte, 1<<18)
+			stk = stk[:runtime.Stack(stk, true)]
+			fmt.Printf("VERIF-HANG goroutines:\n%s\n", stk)
 			if hw != nil {
 				pl := *hw.plan
 				if hw.ev+1 <= len(pl.Events) {
@@ -114,26 +117,27 @@ type sent struct {
 }
 
 type world struct {
-	plan        *Plan
-	prop        string
-	ln          *simListener
-	srv         *api.Server
-	serveCh     chan error
-	slots       map[int]*clientConn
-	all         []*clientConn
-	nextID      int
-	rd          *verifrt.Reader
-	viol        *verifh.Violation
-	lastCode    map[int]string
-	log         []string
-	logOn       bool
-	nontriv     bool
-	evIdx       int
-	stopped     bool
-	pendingPath string
-	sleepN      int64
-	stallAt     uint64
-	stallDur    time.Duration
+	plan         *Plan
+	prop         string
+	ln           *simListener
+	srv          *api.Server
+	serveCh      chan error
+	slots        map[int]*clientConn
+	all          []*clientConn
+	nextID       int
+	rd           *verifrt.Reader
+	viol         *verifh.Violation
+	lastCode     map[int]string
+	log          []string
+	logOn        bool
+	nontriv      bool
+	evIdx        int
+	stopped      bool
+	pendingPath  string
+	sleepN       int64
+	stallAt      uint64
+	stallDur     time.Duration
+	strictSecret bool
 }
 
 // sleep advances the fake clock. Every sleep carries its own sub-millisecond
@@ -662,22 +666,59 @@ func fieldMask(body []byte) string {
 	return fmt.Sprint(len(keys))
 }
 
-// checkSecretBytes: a sequential /otp/secret answer must be what the library's
-// own RandomSecret returns when it is called directly on the same random
-// stream from the position this request found it at (self-reference: a defect
-// of the library's generator - C08 - is not this property's business; a
-// handler that does not use the library's generator, or not for the requested
-// hash, is).
+// calibrate observes, once per run and before the server exists, how the
+// library's own RandomSecret behaves on the simulated source: "stateless and
+// faithful" means the secret is exactly the bytes the source delivered during
+// the call. Only then is the strict clause of checkSecretBytes applied. A
+// library whose generator prefetches (correct) or mangles bytes (C08's
+// business) is not judged through the REST endpoint beyond the shape of the
+// answer: the endpoint can only be asked to reflect the library.
+func (w *world) calibrate() {
+	w.strictSecret = false
+	defer func() {
+		_ = recover()
+		verifrt.ResetMeter(0)
+	}()
+	verifrt.ResetMeter(workCap)
+	for _, algo := range []otp.Algorithm{otp.SHA1, otp.SHA512} {
+		from := len(w.rd.Log)
+		sec, err := otp.RandomSecret(algo)
+		if err != nil {
+			return
+		}
+		var got []byte
+		for _, rec := range w.rd.Log[from:] {
+			for i := 0; i < rec.N; i++ {
+				got = append(got, w.rd.ByteAt(rec.Off+uint64(i)))
+			}
+		}
+		dec, derr := otp.DecodeSecret(sec)
+		if derr != nil || !bytes.Equal(dec, got) {
+			verifh.Count("skip.library-secret-generator-not-stateless-faithful", 1)
+			return
+		}
+	}
+	w.strictSecret = true
+}
+
+// checkSecretBytes: with a library generator observed to be stateless and
+// faithful (calibrate), a sequential /otp/secret answer must be exactly the
+// bytes the random source delivered while this request was served.
 func (w *world) checkSecretBytes(s *sent, resp *response) {
+	if !w.strictSecret {
+		return
+	}
 	var g struct {
 		Secret string `json:"secret"`
 	}
 	if json.Unmarshal(resp.body, &g) != nil {
 		return
 	}
-	delivered := 0
+	var got []byte
 	for _, rec := range w.rd.Log[s.secretAt:] {
-		delivered += rec.N
+		for i := 0; i < rec.N; i++ {
+			got = append(got, w.rd.ByteAt(rec.Off+uint64(i)))
+		}
 	}
 	_, q, _ := strings.Cut(s.path, "?")
 	algo := otp.SHA1
@@ -686,35 +727,51 @@ func (w *world) checkSecretBytes(s *sent, resp *response) {
 			algo = mAlgo(&v)
 		}
 	}
-	var want string
-	var werr error
-	func() {
-		verifrt.ResetMeter(workCap)
-		saved := rand.Reader
-		rand.Reader = w.rd.CloneAt(s.rdPos, s.rdCpos)
-		defer func() {
-			rand.Reader = saved
-			if p := recover(); p != nil {
-				werr = fmt.Errorf("panic: %v", p)
-			}
-			verifrt.ResetMeter(0)
-		}()
-		want, werr = otp.RandomSecret(algo)
-	}()
-	if werr != nil {
-		verifh.Count("skip.model-call-panicked-or-tripped", 1)
-		return
-	}
 	size := map[otp.Algorithm]int{otp.SHA1: 20, otp.SHA256: 32, otp.SHA512: 64}[algo]
-	if delivered != size {
+	if len(got) != size {
 		// other requests (earlier ones queued on a stalled connection, retries) drew
-		// from the stream in the same interval: the position is not this request's alone
+		// from the stream in the same interval
 		verifh.Count("skip.secret-stream-shared-with-other-requests", 1)
 		return
 	}
-	verifh.Count("oracle.secret-compared-with-library-on-same-stream", 1)
-	if g.Secret != want {
-		w.fail("answer==library", "/otp/secret", "secret-not-the-library's", fmt.Sprintf("secret %q, but RandomSecret(%s) called directly on the same random stream (position %d) returns %q; %d bytes were drawn while the request was served", g.Secret, algoName(algo), s.rdPos, want, delivered))
+	dec, err := otp.DecodeSecret(g.Secret)
+	if err != nil {
+		return // shape is judged by the model
+	}
+	verifh.Count("oracle.secret-compared-with-source-bytes(library calibrated)", 1)
+	if !bytes.Equal(dec, got) {
+		// before blaming the endpoint: what does the library itself do on exactly this
+		// stream state (same position, same chunking)? If it is not faithful here
+		// either, that is C08's business, and if it returns what the endpoint
+		// returned, the endpoint reflects the library.
+		var sec2 string
+		var err2 error
+		clone := w.rd.CloneAt(s.rdPos, s.rdCpos)
+		func() {
+			verifrt.ResetMeter(workCap)
+			saved := rand.Reader
+			rand.Reader = clone
+			defer func() {
+				rand.Reader = saved
+				if p := recover(); p != nil {
+					err2 = fmt.Errorf("panic: %v", p)
+				}
+				verifrt.ResetMeter(0)
+			}()
+			sec2, err2 = otp.RandomSecret(algo)
+		}()
+		var got2 []byte
+		for _, rec := range clone.Log {
+			for i := 0; i < rec.N; i++ {
+				got2 = append(got2, clone.ByteAt(rec.Off+uint64(i)))
+			}
+		}
+		dec2, derr := otp.DecodeSecret(sec2)
+		if err2 != nil || derr != nil || sec2 == g.Secret || !bytes.Equal(dec2, got2) {
+			verifh.Count("skip.library-secret-generator-not-stateless-faithful", 1)
+			return
+		}
+		w.fail("answer==library", "/otp/secret", "secret-not-the-library's", fmt.Sprintf("secret %q decodes to %x, but the library's generator (observed stateless and faithful on this stream) was given %x while this request was served", g.Secret, dec, got))
 	}
 }
 
@@ -817,6 +874,22 @@ func (w *world) await2(cc *clientConn) {
 	}
 }
 
+// outstanding counts requests that were completely sent and not yet answered, on any connection.
+func (w *world) outstanding() int {
+	n := 0
+	for _, cc := range w.all {
+		if cc.closed {
+			continue
+		}
+		for _, s := range cc.pending {
+			if s.complete {
+				n++
+			}
+		}
+	}
+	return n
+}
+
 func (w *world) checkTrip(ev *Event, what string) {
 	verifrt.SetStall(0, 0)
 	if verifrt.Tripped() {
@@ -897,6 +970,7 @@ func (w *world) run() {
 	if w.plan.StartJumpS > 0 {
 		w.sleep(time.Duration(w.plan.StartJumpS) * time.Second)
 	}
+	w.calibrate()
 	w.startServer()
 	synctest.Wait()
 
@@ -920,16 +994,26 @@ func (w *world) run() {
 		switch ev.Kind {
 		case "req":
 			cc := w.usable(ev.Conn, ev.IP, ev.Fresh)
-			if ev.StallAt > 0 {
+			if ev.StallAt > 0 && w.outstanding() == 0 {
 				// slow / descheduled handler: the goroutine serving this request sleeps
-				// (fake time) at its StallAt-th statement
+				// (fake time) at its StallAt-th statement. Only when no other request is
+				// in flight: a goroutine that sleeps while holding a lock another handler
+				// wants would wedge the bubble (a lock wait is not "durably blocked", so
+				// fake time could never advance) - an artefact of the simulation, not of
+				// the code under test.
 				w.stallAt, w.stallDur = uint64(ev.StallAt), time.Duration(ev.StallMs)*time.Millisecond+time.Duration(ev.StallNs)
 				before := verifrt.Stalls.Load()
 				w.doReq(ev, cc, ev.Req, "main", ev.Cuts, ev.GapMs, ev.AbortAt, true)
-				w.stallAt, w.stallDur = 0, 0
 				if verifrt.Stalls.Load() > before {
 					verifh.Count("fault.handler-stalled-mid-request", 1)
+					// nothing else may be served until the stalled handler has woken up and
+					// finished (it may be holding a lock), whether or not its answer is awaited
+					w.sleep(w.stallDur + time.Millisecond)
+					synctest.Wait()
+					w.harvest(cc)
 				}
+				w.stallAt, w.stallDur = 0, 0
+				verifrt.SetStall(0, 0)
 			} else {
 				w.doReq(ev, cc, ev.Req, "main", ev.Cuts, ev.GapMs, ev.AbortAt, true)
 			}
